@@ -170,7 +170,7 @@ def build_dex(d):
             mm = Method(m["name"], m["ret"], params, acc, code)
             (dm if (m["static"] or m["name"] == "<init>") and code is not None else vm).append(mm)
         b.add_class(c["name"], static_fields=sf, instance_fields=inf, direct_methods=dm, virtual_methods=vm)
-    data = b.build()
+    data = b.build(version=d["version"].encode()) if d.get("version") else b.build()
     if d.get("layout"):
         data = permute_string_data(data, b.layout, d["layout"])
     return data, list(b.strings)
@@ -179,8 +179,10 @@ def build_dex(d):
 def merged(prog):
     """the single DEX holding all classes (and every extra pool string)"""
     lay = [d["layout"] for d in prog if d.get("layout")]
+    ver = [d["version"] for d in prog if d.get("version")]
     return [dict({"strings": [s for d in prog for s in d.get("strings", [])],
-                  "classes": [c for d in prog for c in d["classes"]]}, **({"layout": lay[0]} if lay else {}))]
+                  "classes": [c for d in prog for c in d["classes"]]},
+                 **({"layout": lay[0]} if lay else {}), **({"version": max(ver)} if ver else {}))]
 
 
 # --------------------------------------------------------------------------- flat form (names only)
@@ -478,16 +480,45 @@ def extract_program(vms):
 
 
 # --------------------------------------------------------------------------- generator
-def gen_program(rng, big=False):
+# The DEX SimpleNameChar alphabet by category (every category is used in every run: gen_program cycles
+# through them with its `variant` argument).  'ws040' is legal only from DEX version 040 on, so those
+# files are written with build(version=b'040').
+NAME_CATEGORIES = [
+    ("plain", [""]),
+    ("ws-all-versions", ["\u1680", "\u205f", "\u3000"]),                       # Python's \s matches these
+    ("ws040", [" ", "\u00a0", "\u2000", "\u2005", "\u200a", "\u202f"]),
+    ("currency", ["\u20ac", "\u00a2", "\u00a3", "\u00a5"]),
+    ("combining", ["e\u0301", "\u0915\u093f", "a\u0300\u0323"]),                  # NFD accents, Indic vowel sign
+    ("symbols", ["\u2020", "\u2192", "\u00a7", "$", "-", "_", "\u2010", "\u2027"]),
+    ("cjk", ["\u4e2d\u6587", "\u65e5\u672c\u8a9e", "\uffe6"]),
+    ("rtl", ["\u05d0\u05d1", "\u0639\u0631\u0628"]),
+    ("supplementary", ["\U0001f600", "\U00010400", "\U0010ffff"]),
+]
+
+
+def gen_program(rng, big=False, variant=None):
     ncls = rng.choice((1, 2, 2, 3, 3, 4, 5)) if not big else rng.randrange(4, 9)
-    cnames = ["La/C%d;" % i for i in range(ncls)]
-    ext = ["Ljava/E0;", "Ljava/E1;", "Lx/Y;"]
+    cat, extra_chars = NAME_CATEGORIES[(variant if variant is not None else rng.randrange(len(NAME_CATEGORIES))) % len(NAME_CATEGORIES)]
+
+    def dec(name):
+        """put characters of the run's category at the end, in the middle or at the start of a simple name"""
+        x = rng.choice(extra_chars)
+        if not x:
+            return name
+        k = rng.choice((len(name), len(name), 1, 0))
+        return name[:k] + x + name[k:]
+
+    pkg = dec("a") if rng.random() < 0.3 else "a"
+    cnames = ["L%s/%s;" % (pkg, dec("C%d" % i)) for i in range(ncls)]
+    ext = ["Ljava/%s;" % dec("E0"), "Ljava/E1;", "Lx/%s;" % dec("Y")]
     prim_arr = ["[I", "[[J", "[Z"]
-    mnames = ["m0", "m1", "run", "<init>", "get"]
-    protos = [("V", []), ("I", ["I", "J"]), ("La/C0;", ["[La/C0;"]), ("V", ["Ljava/E0;"]), ("[I", [])]
-    fnames = ["f0", "f1", "g"]
-    ftypes = ["I", "J", "La/C0;", "[I", "Ljava/E0;", "Z"]
-    strs = ["", "hello", "La/C0;", "a b", "[La/C1;", "m0", "é中", "I"]
+    mnames = [dec("m0"), "m1", dec("run"), "<init>", "get"]
+    C0 = cnames[0]
+    protos = [("V", []), ("I", ["I", "J"]), (C0, ["[" + C0]), ("V", [ext[0]]), ("[I", [])]
+    fnames = [dec("f0"), "f1", dec("g")]
+    ftypes = ["I", "J", C0, "[I", ext[0], "Z"]
+    strs = ["", "hello", C0, "a b", "[" + cnames[-1], mnames[0], "\u00e9\u4e2d", "I"]
+    version = "040" if cat == "ws040" else None
     # declarations first, so that references can target them
     classes = []
     for cn in cnames:
@@ -592,6 +623,8 @@ def gen_program(rng, big=False):
     for p in parts:
         extra = [rng.choice(strs + ["unused"])] if rng.random() < 0.3 else []
         dd = {"strings": extra, "classes": p}
+        if version:
+            dd["version"] = version
         if rng.random() < 0.5:
             dd["layout"] = rng.randrange(1, 1 << 30)      # string_data_items in a permuted physical order
         prog.append(dd)
@@ -717,6 +750,11 @@ def work(args):
                               None, d[0], d[1]))
     st = _stats(views[0][1])
     st["dex_files_with_permuted_string_data"] = sum(1 for d in prog if d.get("layout"))
+    allnames = "".join(c["name"] + "".join(f[0] for f in c["fields"]) + "".join(m["name"] for m in c["methods"])
+                       for d in prog for c in d["classes"])
+    for cat, chars in NAME_CATEGORIES[1:]:
+        if any(ch in allnames for x in chars for ch in x if ord(ch) > 0x7f or ch == " "):
+            st["programs_with_names_" + cat] = 1
     return idx, reqs, real, fails, st, len(views)
 
 
@@ -1174,7 +1212,7 @@ def run_property(ck, prop):
         ngen *= 2      # a broken obligation: search deeper for a concrete failing input
     cases = [("corpus:" + fn, p) for fn, p in load_corpus(prop)]
     for i in range(ngen):
-        cases.append(("gen:%d" % i, gen_program(ck.rng, big=(i % 50 == 49))))
+        cases.append(("gen:%d" % i, gen_program(ck.rng, big=(i % 50 == 49), variant=i)))
     ck.rule = ("generated programs (1..9 classes, 1..4 DEX files, invoke/const-string/new-instance/const-class/field "
                "instructions with internal, external, array and unresolved targets, repeated references) analysed "
                + ("in every permutation of the add order and as one merged DEX" if all_orders else
@@ -1193,7 +1231,7 @@ def run_property(ck, prop):
             if "history" in cp:
                 hcases.append(("corpus:" + fn, cp["prog"], cp.get("order", list(range(len(cp["prog"])))), cp["history"]))
         for i in range(nhist):
-            hp = gen_program(ck.rng, big=False)
+            hp = gen_program(ck.rng, big=False, variant=i)
             od = list(range(len(hp)))
             ck.rng.shuffle(od)
             hh = gen_history(ck.rng, hp, od)
